@@ -207,7 +207,7 @@ def run_tlc(ctx, module, cfg, workers=4, timeout=900, env=None, simulate=None, d
                 res.violated = m.group(1)
             if line.startswith("Error:") and res.error is None and not res.violated:
                 res.error = line
-            m = re.match(r"^<(\w+) line \d+, col \d+ to line \d+, col \d+ of module (\w+)>: (\d+):(\d+)", line)
+            m = re.match(r"^<(\w+) line \d+, col \d+ to line \d+, col \d+ of module (\w+)(?: \([\d ]+\))?>: (\d+):(\d+)", line)
             if m:
                 res.coverage[m.group(1)] = res.coverage.get(m.group(1), 0) + int(m.group(4))
     res.raw = "\n".join(tail[-120:])
